@@ -111,7 +111,7 @@ class UnitGen:
                         'sites': {str(k): v for k, v in f.sites.items()},
                         'lifts': {str(k): v for k, v in f.lifts.items()},
                         'substs': [[a, b] for (a, b, _) in f.substs],
-                        'renames': f.renames,
+                        'renames': f.renames, 'aliases': f.aliases,
                         'rules': scoped_rules(self.rules_text, f.path)}
                 if 'lifted' in f.opts:
                     parent, cn = f.opts['lifted'].split()
@@ -213,6 +213,8 @@ class UnitGen:
             src = (io['_file'], io.get('src_line', 0))
             for rw in io.get('rewrites', []):
                 self.rewrites.append((m.path + '::' + it.name, rw.get('rule'), rw.get('line', 0), rw.get('what', '')))
+            if io.get('derives'):
+                self.emit('#[derive(%s)]' % ', '.join(io['derives']), kind='item', src=src)
             if it.kind == 'struct':
                 gen = io.get('generics', '')
                 if io.get('tuple'):
